@@ -156,6 +156,8 @@ func (shieldComp) Gen(r *rand.Rand, tier string, n int) []*wire.Case {
 	mk("d-parallel", plain(1, 1, 2, map[int]float64{1: 1}, 0), plain(2, 1, 2, map[int]float64{1: 2}, 0), plain(3, 1, 2, map[int]float64{1: 0.5}, 0),
 		abs(2, 25), abs(2, 25), abs(2, 50), abs(2, 0), abs(2, -5), abs(2, 10))
 	mk("d-pass", abs(2, 10), abs(2, -1), abs(2, 0), plain(1, 1, 2, map[int]float64{1: 1}, 0), abs(3, 10))
+	// damage between 0 and 1 on a shielded unit is absorbed like any other; exactly 0 and below pass through
+	mk("d-small-damage", plain(1, 1, 2, map[int]float64{1: 1}, 0), abs(2, 0.5), abs(2, 1), abs(2, 0.25), abs(2, 1e-9), abs(2, 0), abs(2, 48), abs(2, 0.5))
 	mk("d-equal", plain(1, 1, 2, map[int]float64{1: 1}, 0), abs(2, 50), abs(2, 50))
 	mk("d-three-terms", plain(1, 1, 2, map[int]float64{1: 0.1, 2: 0.7, 3: 0.013, 4: 0.0007, 5: 0.3}, 0.1), abs(2, 3))
 	mk("d-total-shield", plain(1, 2, 1, map[int]float64{1: 1}, 0), plain(2, 1, 3, map[int]float64{5: 0.5}, 0), abs(3, 10))
@@ -174,7 +176,7 @@ func (shieldComp) Gen(r *rand.Rand, tier string, n int) []*wire.Case {
 			case 4:
 				ops = append(ops, rm(pick(r, 1, 2, 3, 4), tgt))
 			default:
-				ops = append(ops, abs(tgt, pick(r, 0.0, -3, 10, 55, 200, 1000, amount(r, 300))))
+				ops = append(ops, abs(tgt, pick(r, 0.0, -3, 10, 55, 200, 1000, 0.5, 1, amount(r, 300))))
 			}
 		}
 		mk(fmt.Sprintf("r%d", i), ops...)
